@@ -2,9 +2,12 @@ package main
 
 import (
 	"context"
+	"errors"
 	"fmt"
 	"sort"
 	"sync"
+	"sync/atomic"
+	"time"
 
 	"verifharness/enc"
 	"verifharness/fakeapi"
@@ -159,7 +162,7 @@ func typedTree(c *Ctx, pkg typedPkg, seed int64, level int) {
 				OnUpdate(func(o metav1.Object) { raw(1, o); urec("update", o) }).
 				OnDelete(func(o metav1.Object) { raw(2, o); urec("delete", o) }).Create())
 			// the same with handlers that have only some of their callbacks set
-			mk := [2]int{int(seed+int64(len(tmons))*5) % 16, int(seed/3+int64(len(tmons))*7) % 16}
+			mk := [2]int{int(seed+int64(len(tmons))*5) % 32, int(seed/3+int64(len(tmons))*7) % 32} // bit 16: the callbacks left out are set to nil explicitly
 			masks[name] = mk
 			tm2, err := t.monitorMask(mk[0], func(w string, ids []int) {
 				cbMu.Lock()
@@ -476,4 +479,80 @@ func canonCb(l [][2]string) [][2]string {
 		i = j
 	}
 	return r
+}
+
+// typedListFailure: a relist that fails (a plain error, context.Canceled or
+// context.DeadlineExceeded returned by List although nobody cancelled anything,
+// a Status error) stops a typed controller exactly as it stops the untyped one
+// next to it: Done() closes, Error() reports the cause — the same cause — and
+// what hangs below is shut down.  A deliberate Close reports no failure.
+func typedListFailure(c *Ctx, pkg typedPkg, kind fakeapi.ListKind, seed int64) {
+	var problems []string
+	what := fmt.Sprintf("typed controller of package %s: list failure kind %d at the second list of each controller", pkg.name, kind)
+	c.Now(what)
+	dl := sched.Bubble(c.T, func() {
+		srv := fakeapi.New()
+		srv.Kind = pkg.kind
+		srv.Put(proto(pkg.kind, 1, 1, 0))
+		var nlists atomic.Int32
+		srv.ListBehave = func(n int) fakeapi.ListKind {
+			if nlists.Add(1) > 2 { // the first list of each of the two controllers succeeds
+				return kind
+			}
+			return fakeapi.ListOK
+		}
+		pert := sched.NewPerturb(seed, int(seed%3))
+		ctx, cancel := context.WithCancel(context.Background())
+		defer cancel()
+		tc, err := pkg.build(ctx, pert.Log(), fakeClient(srv))
+		uc, err2 := kcache.NewController(ctx, pert.Log(), fakeClient(srv))
+		if err != nil || err2 != nil {
+			problems = append(problems, fmt.Sprintf("construction failed: %v %v", err, err2))
+			return
+		}
+		defer func() {
+			pert.SetLevel(0)
+			tc.closeFn()
+			uc.Close()
+			sched.Settle()
+		}()
+		ts, _ := tc.subscribe()
+		pert.Barrier()
+		// both relist after the default period (a minute); wait two
+		time.Sleep(150 * time.Second)
+		sched.Settle()
+		if ts != nil {
+			defer func() { <-ts.end }()
+		}
+		if !isClosed(uc.Done()) {
+			problems = append(problems, "the untyped controller did not stop after a failed relist (scenario premise)")
+			return
+		}
+		if !isClosed(tc.done()) {
+			problems = append(problems, "the typed controller keeps running after a failed relist")
+			return
+		}
+		terr, uerr := tc.errFn(), uc.Error()
+		if (terr == nil) != (uerr == nil) {
+			problems = append(problems, fmt.Sprintf("after a failed relist the typed controller's Error() is %v, the untyped one's %v", terr, uerr))
+		}
+		for _, target := range []error{fakeapi.ErrList, context.Canceled, context.DeadlineExceeded} {
+			if errors.Is(uerr, target) != errors.Is(terr, target) {
+				problems = append(problems, fmt.Sprintf("the typed controller's Error() (%v) and the untyped one's (%v) disagree on the cause %v", terr, uerr, target))
+			}
+		}
+		if ts != nil && !isClosed(ts.done()) {
+			problems = append(problems, "a typed subscription outlives its typed controller's list failure")
+		}
+	})
+	c.Rep.Evaluations++
+	replay := map[string]interface{}{"scenario": what, "package": pkg.name, "kind": int(kind)}
+	if dl != "" {
+		replay["deadlock"] = dl
+		c.Violation("", "hang (bubble deadlock): "+what, replay)
+	}
+	for _, p := range problems {
+		c.Violation("", p+" ["+what+"]", replay)
+	}
+	c.DistinctCase(fmt.Sprintf("typed-list-failure-%s-%d", pkg.name, kind))
 }
